@@ -1,14 +1,184 @@
-import AuProofs.Lemmas.Mod
+/-
+  C12 — factorisation, primality and the modular helpers on all 64-bit inputs.
+
+  Model: AuModel.Mod / Primes / Factoring (every `uint64_t` operation is a wrapping operation that
+  records wrap-around, division by zero and fuel exhaustion; `W.ok v` = value `v`, all flags clear).
+  What is proved here holds for ALL inputs satisfying the stated hypotheses (no bounds other than
+  "fits in 64 bits").  What is NOT proved: `is_prime n ↔ Nat.Prime n` (Baillie–PSW; it appears below
+  only as an explicit hypothesis `BPSWSound`), and termination of Pollard's rho within its fuel.
+-/
+import AuProofs.Lemmas.Factoring
+import Generated.FirstPrimes
 namespace Au
 open U64
 
-/-- `add_mod(a, b, n)` is `(a + b) % n` with no intermediate wrap-around, for every 64-bit modulus
-(including moduli above 2^63) and all operands below it. -/
+/-! ### Modular helpers (mod.hh) -/
+
+/-- `add_mod(a, b, n) = (a + b) mod n`, no intermediate wrap-around, for every modulus below 2^64
+(moduli above 2^63 included) and operands below the modulus. -/
 theorem C12_addMod_spec (a b n : Nat) (ha : a < n) (hb : b < n) (hn : n < 2 ^ 64) :
     addMod a b n = W.ok ((a + b) % n) :=
   addMod_spec' (Nat.le_of_lt ha) hb (M_eq ▸ hn)
 
 example : (18446744073709551614 : Nat) < 18446744073709551615 ∧ (18446744073709551615 : Nat) < 2 ^ 64 := by decide
 example : addMod 18446744073709551614 18446744073709551613 18446744073709551615 = W.ok 18446744073709551612 := by decide
+
+/-- `sub_mod(a, b, n) = (a - b) mod n` (mathematical, non-negative residue), no wrap-around. -/
+theorem C12_subMod_spec (a b n : Nat) (ha : a < n) (hb : b < n) (hn : n < 2 ^ 64) :
+    ∃ r : Nat, subMod a b n = W.ok r ∧ (r : Int) = ((a : Int) - (b : Int)) % (n : Int) := by
+  refine ⟨(a + (n - b)) % n, subMod_spec' ha hb (M_eq ▸ hn), ?_⟩
+  have h1 : ((a + (n - b) : Nat) : Int) = (a : Int) - b + n := by
+    rw [Nat.cast_add, Nat.cast_sub (Nat.le_of_lt hb)]; ring
+  rw [Int.natCast_mod, h1, Int.add_emod_right]
+
+example : subMod 3 18446744073709551613 18446744073709551615 = W.ok 5 := by decide
+
+/-- `mul_mod(a, b, n) = (a * b) mod n` with no intermediate wrap-around: neither the fast path, nor
+the "negative space" chunking, nor any level of its recursion wraps, for every modulus below 2^64. -/
+theorem C12_mulMod_spec (a b n : Nat) (ha : a < n) (hb : b < n) (hn : n < 2 ^ 64) :
+    mulMod a b n = W.ok (a * b % n) :=
+  mulMod_spec' ha hb (M_eq ▸ hn)
+
+example : mulMod 18446744073709551614 18446744073709551613 18446744073709551615 = W.ok 2 := by decide
+example : mulMod 9223372036854775809 18446744073709551557 18446744073709551615 = W.ok 18446744073709551528 := by decide
+
+/-- `half_mod_odd(a, n)` is the residue `r < n` with `2 r ≡ a (mod n)` (unique because `n` is odd),
+computed without wrap-around. -/
+theorem C12_halfModOdd_spec (a n : Nat) (ha : a < n) (hodd : n % 2 = 1) (hn : n < 2 ^ 64) :
+    ∃ r : Nat, halfModOdd a n = W.ok r ∧ r < n ∧ 2 * r % n = a := by
+  refine ⟨_, halfModOdd_spec' ha hodd (M_eq ▸ hn), ?_⟩
+  exact half_value ha hodd
+
+/-- Uniqueness of the value specified by `C12_halfModOdd_spec`. -/
+theorem C12_half_unique (n r s : Nat) (hodd : n % 2 = 1) (hr : r < n) (hs : s < n) (h : 2 * r % n = 2 * s % n) : r = s := by
+  have h2 : Nat.Coprime 2 n := by
+    rw [Nat.Prime.coprime_iff_not_dvd Nat.prime_two]
+    omega
+  have : r ≡ s [MOD n] := Nat.ModEq.cancel_left_of_coprime (c := 2) (by rw [Nat.gcd_comm]; exact h2) h
+  have := Nat.ModEq.eq_of_lt_of_lt this hr hs
+  exact this
+
+example : halfModOdd 18446744073709551613 18446744073709551615 = W.ok 18446744073709551614 := by decide
+
+/-- `pow_mod(base, exp, n) = base^exp mod n` for every 64-bit base and exponent and modulus `1 < n`,
+without wrap-around. -/
+theorem C12_powMod_spec (base exp n : Nat) (hn1 : 1 < n) (hn : n < 2 ^ 64) :
+    powMod base exp n = W.ok (base ^ exp % n) :=
+  powMod_spec' hn1 (M_eq ▸ hn)
+
+example : powMod 18446744073709551615 18446744073709551615 18446744073709551557 = W.ok 4959809447704153900 := by decide +kernel
+
+/-- The statement without `1 < n` is false: `pow_mod(b, 0, 1)` returns 1, not `b^0 mod 1 = 0`.
+(No caller in the library passes `n = 1`.) -/
+def C12_powMod_full : Prop := ∀ base exp n : Nat, 0 < n → n < 2 ^ 64 → powMod base exp n = W.ok (base ^ exp % n)
+theorem C12_powMod_counterexample : ¬ C12_powMod_full := by
+  intro h
+  have := h 5 0 1 (by decide) (by decide)
+  revert this
+  decide
+
+/-! ### gcd, decompose, Miller–Rabin, is_perfect_square (probable_primes.hh) -/
+
+/-- `gcd(a, b)` is the greatest common divisor (no precondition at all). -/
+theorem C12_gcd_spec (a b : Nat) : U64.gcd a b = W.ok (Nat.gcd a b) := gcd_spec' a b
+
+/-- `decompose(n)` returns `(s, d)` with `n = 2^s d`, `d` odd, for every `0 < n < 2^64`. -/
+theorem C12_decompose_spec (n : Nat) (h0 : 0 < n) (hn : n < 2 ^ 64) :
+    ∃ s d, decompose n = W.ok ⟨s, d⟩ ∧ n = 2 ^ s * d ∧ d % 2 = 1 := by
+  obtain ⟨s, d, h1, h2, h3, _⟩ := decompose_spec' h0 (M_eq ▸ hn)
+  exact ⟨s, d, h1, h2, h3⟩
+
+example : decompose 9223372036854775808 = W.ok ⟨63, 1⟩ := by decide
+/-- `decompose(0)` does not terminate. -/
+example : (decompose 0).stuck = true := by decide
+
+/-- `miller_rabin(a, n)` answers PROBABLY_PRIME exactly when `n` is a strong probable prime to base
+`a`, COMPOSITE otherwise, on every valid input (`2 ≤ a`, `a + 2 ≤ n`, `n` odd), with no wrap-around
+anywhere inside. -/
+theorem C12_millerRabin_iff_strongProbablePrime (a n : Nat) (ha : 2 ≤ a) (han : a + 2 ≤ n)
+    (hodd : n % 2 = 1) (hn : n < 2 ^ 64) :
+    ∃ r, millerRabin a n = W.ok r ∧ (r = .probablyPrime ↔ StrongProbablePrime a n) ∧
+      (r = .composite ↔ ¬ StrongProbablePrime a n) := by
+  classical
+  refine ⟨_, millerRabin_spec' ha han hodd (M_eq ▸ hn), ?_, ?_⟩ <;> by_cases h : StrongProbablePrime a n <;> simp [h]
+
+example : millerRabin 2 2047 = W.ok .probablyPrime := by decide        -- the smallest strong pseudoprime to base 2
+example : millerRabin 3 2047 = W.ok .composite := by decide
+
+/-- `is_perfect_square` full statement — FALSE on the code: `curr * curr` wraps for `curr ≥ 2^32`. -/
+def C12_isPerfectSquare_full : Prop :=
+  ∀ n : Nat, n < 2 ^ 64 → ((isPerfectSquare n).val = true ↔ ∃ r, r * r = n)
+
+theorem C12_isPerfectSquare_counterexample : ¬ C12_isPerfectSquare_full := by
+  intro h
+  have h1 : (isPerfectSquare 17179869188).val = true := by decide
+  obtain ⟨r, hr⟩ := (h 17179869188 (by decide)).1 h1
+  have h2 : r < 131073 := by
+    by_contra hc
+    have : 131073 * 131073 ≤ r * r := Nat.mul_le_mul (by omega) (by omega)
+    omega
+  have h3 : 131072 < r := by
+    by_contra hc
+    have : r * r ≤ 131072 * 131072 := Nat.mul_le_mul (by omega) (by omega)
+    omega
+  omega
+
+/-! ### find_prime_factor (factoring.hh) and the FirstPrimes table -/
+
+/-- The regenerated table is exactly the first 100 primes: 100 entries, strictly increasing, all
+prime, and every prime up to 541 occurs. -/
+theorem C12_firstPrimes_are_the_first_100_primes :
+    Generated.firstPrimes.length = 100 ∧ List.Pairwise (· < ·) Generated.firstPrimes ∧
+      (∀ p ∈ Generated.firstPrimes, Nat.Prime p) ∧ (∀ q, Nat.Prime q → q ≤ 541 → q ∈ Generated.firstPrimes) := by
+  refine ⟨by decide, by decide, ?_, ?_⟩
+  · have h : Generated.firstPrimes.all isPrimeNaive = true := by decide +kernel
+    intro p hp
+    exact (isPrimeNaive_iff p).1 (List.all_eq_true.1 h p hp)
+  · have h : (List.range 542).all (fun q => !isPrimeNaive q || Generated.firstPrimes.contains q) = true := by decide +kernel
+    intro q hq hle
+    have := List.all_eq_true.1 h q (List.mem_range.2 (by omega))
+    rw [(isPrimeNaive_iff q).2 hq] at this
+    simpa using this
+
+theorem C12_firstPrimes_gapless : nextPrimesB 0 Generated.firstPrimes = true := by decide +kernel
+
+/-- Whatever `find_prime_factor(n)` returns divides `n` — unconditionally (any fuel, any table). -/
+theorem C12_findPrimeFactor_divides (fu : Fuel) (table : List Nat) (n : Nat) :
+    (findPrimeFactor fu table n).val ∣ n := findPrimeFactor_dvd fu table n
+
+/-- For `n > 1`, if the model's loops end within their fuel, the returned factor `r` divides `n`,
+is `> 1`, and is either a true prime (trial-division exits: proved via the table theorem) or a
+number the library's own `is_prime` accepts (Pollard-rho exits). -/
+theorem C12_findPrimeFactor_spec (fu : Fuel) (n : Nat) (hn : 1 < n)
+    (hs : (findPrimeFactor fu Generated.firstPrimes n).stuck = false) :
+    (findPrimeFactor fu Generated.firstPrimes n).val ∣ n ∧ 1 < (findPrimeFactor fu Generated.firstPrimes n).val ∧
+      (Nat.Prime (findPrimeFactor fu Generated.firstPrimes n).val ∨
+        (isPrime fu (findPrimeFactor fu Generated.firstPrimes n).val).val = true) :=
+  findPrimeFactor_spec' fu _ n hn C12_firstPrimes_gapless hs
+
+example : (1 : Nat) < 4295098369 ∧ (findPrimeFactor {} Generated.firstPrimes 4295098369).stuck = false ∧
+    (findPrimeFactor {} Generated.firstPrimes 4295098369).val = 65537 := by decide +kernel
+
+/-- Soundness of Baillie–PSW on 64-bit inputs as an explicit HYPOTHESIS (never an axiom): it is the
+published exhaustive computation this framework does not re-prove. -/
+def BPSWSound (fu : Fuel) : Prop := ∀ r : Nat, r < 2 ^ 64 → (isPrime fu r).val = true → Nat.Prime r
+
+/-- Under that hypothesis the factor finder returns a prime divisor of every `1 < n < 2^64`. -/
+theorem C12_findPrimeFactor_prime_of_BPSW (fu : Fuel) (hB : BPSWSound fu) (n : Nat) (hn : 1 < n) (hn64 : n < 2 ^ 64)
+    (hs : (findPrimeFactor fu Generated.firstPrimes n).stuck = false) :
+    Nat.Prime (findPrimeFactor fu Generated.firstPrimes n).val ∧ (findPrimeFactor fu Generated.firstPrimes n).val ∣ n := by
+  obtain ⟨h1, _, h3⟩ := C12_findPrimeFactor_spec fu n hn hs
+  refine ⟨?_, h1⟩
+  rcases h3 with h | h
+  · exact h
+  · exact hB _ (Nat.lt_of_le_of_lt (Nat.le_of_dvd (by omega) h1) hn64) h
+
+/-! ### Corners recorded as observations -/
+
+/-- `strong_lucas(2^64 - 1)`: `n + 1` wraps to 0 and `decompose(0)` never ends.  Unreachable through
+`baillie_psw`, because Miller–Rabin base 2 rejects `2^64 - 1` first: -/
+theorem C12_strongLucas_max_stuck : (strongLucas 100 18446744073709551615).stuck = true := by decide +kernel
+theorem C12_bailliePSW_max : (bailliePSW 100 18446744073709551615).val = .composite ∧
+    (bailliePSW 100 18446744073709551615).stuck = false := by decide +kernel
 
 end Au
